@@ -88,3 +88,9 @@ impl<T> VpIter<T> {
     #[verifier::external_body]
     pub fn collect_vec(self) -> (r: Vec<T>) ensures r@ == self.rest() { unimplemented!() }
 }
+
+/// rule R9: `v.into_iter().enumerate()` is rewritten to `vp_enumerate(v)`
+#[verifier::external_body]
+pub fn vp_enumerate<T>(v: Vec<T>) -> (r: VpIter<(usize, T)>)
+    ensures r.rest().len() == v@.len(), forall|k: int| 0 <= k < v@.len() ==> (#[trigger] r.rest()[k]).0 == k && r.rest()[k].1 == v@[k],
+{ unimplemented!() }
